@@ -170,11 +170,53 @@
 #define AES_CFB_256_ONE aes_cfb_256_one_avx
 
 /* AES-CFB */
-#define SUBMIT_JOB_AES_CFB_128_ENC submit_job_aes128_cfb_enc_vaes_avx512
+/*
+ * The x16 AES-CFB encrypt lanes keep 16-bit lengths.
+ * Messages that do not fit are encrypted with the single buffer code.
+ */
+#define AES_CFB_ENC_MAX_LANE_LEN 0xffff
+
+static IMB_JOB *
+submit_job_aes128_cfb_enc_avx512_t2(MB_MGR_AES_OOO *state, IMB_JOB *job)
+{
+        if (job->msg_len_to_cipher_in_bytes > AES_CFB_ENC_MAX_LANE_LEN) {
+                aes_cfb_128_enc_sse(job->dst, job->src + job->cipher_start_src_offset_in_bytes,
+                                    job->iv, job->enc_keys, job->msg_len_to_cipher_in_bytes);
+                job->status |= IMB_STATUS_COMPLETED_CIPHER;
+                return job;
+        }
+        return submit_job_aes128_cfb_enc_vaes_avx512(state, job);
+}
+
+static IMB_JOB *
+submit_job_aes192_cfb_enc_avx512_t2(MB_MGR_AES_OOO *state, IMB_JOB *job)
+{
+        if (job->msg_len_to_cipher_in_bytes > AES_CFB_ENC_MAX_LANE_LEN) {
+                aes_cfb_192_enc_sse(job->dst, job->src + job->cipher_start_src_offset_in_bytes,
+                                    job->iv, job->enc_keys, job->msg_len_to_cipher_in_bytes);
+                job->status |= IMB_STATUS_COMPLETED_CIPHER;
+                return job;
+        }
+        return submit_job_aes192_cfb_enc_vaes_avx512(state, job);
+}
+
+static IMB_JOB *
+submit_job_aes256_cfb_enc_avx512_t2(MB_MGR_AES_OOO *state, IMB_JOB *job)
+{
+        if (job->msg_len_to_cipher_in_bytes > AES_CFB_ENC_MAX_LANE_LEN) {
+                aes_cfb_256_enc_sse(job->dst, job->src + job->cipher_start_src_offset_in_bytes,
+                                    job->iv, job->enc_keys, job->msg_len_to_cipher_in_bytes);
+                job->status |= IMB_STATUS_COMPLETED_CIPHER;
+                return job;
+        }
+        return submit_job_aes256_cfb_enc_vaes_avx512(state, job);
+}
+
+#define SUBMIT_JOB_AES_CFB_128_ENC submit_job_aes128_cfb_enc_avx512_t2
 #define FLUSH_JOB_AES_CFB_128_ENC  flush_job_aes128_cfb_enc_vaes_avx512
-#define SUBMIT_JOB_AES_CFB_192_ENC submit_job_aes192_cfb_enc_vaes_avx512
+#define SUBMIT_JOB_AES_CFB_192_ENC submit_job_aes192_cfb_enc_avx512_t2
 #define FLUSH_JOB_AES_CFB_192_ENC  flush_job_aes192_cfb_enc_vaes_avx512
-#define SUBMIT_JOB_AES_CFB_256_ENC submit_job_aes256_cfb_enc_vaes_avx512
+#define SUBMIT_JOB_AES_CFB_256_ENC submit_job_aes256_cfb_enc_avx512_t2
 #define FLUSH_JOB_AES_CFB_256_ENC  flush_job_aes256_cfb_enc_vaes_avx512
 #define AES_CFB_128_DEC            aes_cfb_dec_128_vaes_avx512
 #define AES_CFB_192_DEC            aes_cfb_dec_192_vaes_avx512
